@@ -627,6 +627,14 @@ def discharge(res, timeout_ms=10000, want_models=True, second_opinion=False):
     out = []
     for ob in getattr(res, '_obs', []):
         t0 = time.time()
+        if z3.is_true(ob.goal):
+            # a clause whose guard cannot hold on this path (evaluated to the constant true): nothing to discharge
+            rec = dict(name=ob.name, kind=ob.kind, verdict='proved', backend='trivial (the goal is the constant true on this path)',
+                       time=0.0, line=ob.line)
+            if ob.extra:
+                rec['extra'] = ob.extra
+            out.append(rec)
+            continue
         axioms = ground_facts(list(ob.pc) + [ob.goal], getattr(ob, 'byte_arrays', ()))
         sopt = getattr(res.contract, 'solver', {}) or {}
         tmo = max(timeout_ms, sopt.get('timeout_ms', 0))
